@@ -3,24 +3,33 @@ PROP = dict(
     gens=[],
     lake=['IcyVerif.Props.C09'],
     ns='IcyVerif.C09',
-    theorems=['cursor_in_screen_bytes', 'fixed_grid', 'cursor_in_screen_wrapped', 'cursor_in_screen', 'cursor_in_screen_step', 'screen_not_below_buffer', 'margins_inside_screen'],
+    theorems=['cursor_in_screen_bytes', 'fixed_grid', 'cursor_in_screen_wrapped', 'cursor_in_screen', 'cursor_in_screen_step', 'screen_not_below_buffer', 'margins_inside_screen', 'size_const', 'size_const_wrapped', 'size_const_bytes', 'cursor_in_initial_screen'],
     harness='c09',
+    search=True,
     harness_timeout=1500,
     design='DESIGN.md §4 C09, §3.2 TermGeo',
     technique='Lean 4 proof: invariant (sizes/margins sane, cursor inside the visible screen unless a resize was requested) '
-              'preserved by every character of the ANSI parser incl. macro replay (induction over the stream, structural '
-              'recursion over macro depth), over the hand-written TermGeo model; model tied to the code by a per-character '
-              'differential correspondence of the geometry digest; oracle (cursor in screen, fixed 40x24 grid) on the real '
-              'code for all ten emulations',
+              'preserved by every character of all ten emulations incl. macro replay (induction over the stream, structural '
+              'recursion over macro depth), and a second invariant (terminal size constant along every resize-free stream), '
+              'over the hand-written TermGeo model; model tied to the code by a per-character differential correspondence of '
+              'the geometry digest; oracle on the real code for all ten emulations: cursor inside the screen AS OPENED (the '
+              'width/height the terminal was created with, changed only by an explicit resize request — not re-read from '
+              'terminal_state), terminal size unchanged, fixed 40x24 grid; failing-input search as in C01 (invariant-triggered '
+              'probe suffixes, exhaustive probe family, `@search:` hook)',
     rule='cases: ANSI streams from the ~140-token alphabet of the quantifier (triples after a scrollback-filling prefix; all '
-         'pairs in thorough) on a 7x4 screen + seeded grammar-based streams (1..200 tokens) for every emulation and '
-         'screen sizes 1..132 x 1..60; evaluations = characters fed; distinct_nontrivial = distinct streams; a stream is '
-         'compared with the model as one line (rolling hash of per-character digests + checkpoints every 32 characters)',
+         'pairs in thorough) on a 7x4 screen + seeded grammar-based streams (1..200 tokens, incl. save -> scrollback growth / '
+         'drop / reset / margins -> restore triples) for every emulation and screen sizes 1..132 x 1..60 + four corners x '
+         'scrollback x own alphabet, all compared with the model as one line (rolling hash of per-character digests + '
+         'checkpoints every 32 characters); PROBE FAMILY (oracle only): corner x control prefix x every probe suffix incl. '
+         'state captured in one geometry and restored in another; evaluations = characters fed; distinct_nontrivial = '
+         'distinct streams compared with the model',
     modelled='ANSI parser control flow (ESC/CSI/DCS/OSC/APS/music framing, macros), caret primitives, limit_caret_pos, '
-             'Buffer::print_char, margins, tab stops, buffer height/first visible line on a terminal buffer',
+             'Buffer::print_char, margins, tab stops, buffer height/first visible line, terminal size (reset_terminal keeps '
+             'it: size_const) on a terminal buffer; the four wrappers and the five byte-oriented emulations',
     not_modelled='cell contents (row lengths, Line::get_line_length is an oracle argument), palette/fonts/hyperlinks/sixel '
-                 'queue/music list (none of them is read by a cursor computation)',
+                 'queue (none of them is read by a cursor computation)',
     assumptions=['HPA/HPR executed from inside a macro replay read the same line length as the invoking character (generator '
                  'does not put them into macro bodies)',
-                 'a stream "requests a resize" iff CSI 8;h;w t is executed (flag `resized` in the model)'],
+                 'a stream "requests a resize" iff CSI 8;h;w t is executed (flag `resized` in the model); executed inside a macro '
+                 'replay the request reaches the harness only as a size change at the invoking `z`, which it accepts as one'],
 )
